@@ -200,7 +200,7 @@ def enum_small(bounds):
     return gen_
 
 
-DEEP = ['P', 'E', 'U2', 'AB', 'V', 'L', 'BF', 'DK', 'PR']
+DEEP = ['P', 'E', 'U2', 'AB', 'V', 'L', 'BF', 'DK', 'PR', 'SV', 'DI']
 
 
 def phases(tier):
